@@ -231,6 +231,11 @@ def run(tier, seed, rep):
         for ka in (False, True):
             for host in ('inverter.local', '10.0.2'):
                 jobs.append((dict(transport=tr, ka=ka, T=1, R=1, cmd='read', host=host), 'product', 2, letters_of(tr), ['ok'], None))
+    # answers cut off after every number of bytes 1..9, nothing following (lone fragments of every length)
+    for tr in ('udp', 'tcp'):
+        for ka in (False, True):
+            jobs.append((dict(transport=tr, ka=ka, T=1, R=1, cmd='read'), 'product', 2,
+                         [f'cut{n}' for n in range(1, 10)] + ['valid', 'drop'], ['ok'], None))
     # non-initial states
     for tr in ('udp', 'tcp'):
         for ka in (False, True):
